@@ -124,6 +124,7 @@ Proof.
   assert (Hne : 0 <= ne) by (unfold ne; destruct isObj; lia).
   destruct (read_entries_np data (Z.to_nat ne) 4) as (ws & Hws & Hl); try lia.
   rewrite Hws. cbn [lift jbind].
+  destruct (negb (offsets_ok ws 0)); [discriminate|].
   apply np_bind.
   - destruct isObj.
     + unfold parseJSONBObject. apply np_bind; [|intros; discriminate].
